@@ -85,7 +85,7 @@ def run(tier, seed, log, prop=PROP, mode=MODE, rule=None):
     import sys
     # C07 is about determinism: a violation that only shows in some replays (an order that depends
     # on id() or hashing) is still a violation, so one reproduction out of six suffices there
-    extra = dict(min_repro=1, tries=6) if prop == "C07" else {}
+    extra = dict(min_repro=1, tries=8) if prop == "C07" else {}
     return rep.finish(confirm=sys.modules[f"egmc.props.{prop.lower()}"].replay, **extra)
 
 
